@@ -33,7 +33,8 @@ def run(ctx):
             ctx.broken('theorem', 'grep gate', hits)
         ctx.coqchk('SDC.Props.C01')
     return ctx.finish(
-        rule='crafted scenario histories (several delete / re-create cycles of one handle, a new MDS created at run time by '
+        rule='histories also contain empty transactions of every kind (empty body, get_state + unget_state, every call refused), API calls that are refused and handled inside the body (the refused statement must leave nothing of itself), re-creation of context state handles through add_state, reseq operations that change only the InstanceId, and the same transaction on the same handle set repeated; '
+             'crafted scenario histories (several delete / re-create cycles of one handle, a new MDS created at run time by '
              'a transaction that only creates a parent-less descriptor, its subtree, removal and re-creation, transactions '
              'whose states belong to two MDSs in alternating order, stale entities, context descriptors with several states) '
              'followed by random tails, plus random histories over all transaction kinds (metric, alert, component, '
